@@ -323,10 +323,18 @@ func TestReplay(t *testing.T) {
 					fail("commitverifies", "VerifyCommit(MakeCommit) rejected: "+err.Error())
 				}
 				// the commit read back as a vote set reproduces the majority
-				cvs := types.CommitToVoteSet(chainID, c, vsets[unit])
-				if m2, ok2 := cvs.TwoThirdsMajority(); !ok2 || blockName(m2) != l.O.M {
-					fail("committovoteset", "CommitToVoteSet lost the majority")
-				}
+				func() {
+					defer func() {
+						if r := recover(); r != nil {
+							// (CommitToVoteSet panics on a commit it cannot verify: reconstructLastCommit would take the node down)
+							fail("committovoteset", fmt.Sprintf("CommitToVoteSet panicked on the commit MakeCommit built: %v", r))
+						}
+					}()
+					cvs := types.CommitToVoteSet(chainID, c, vsets[unit])
+					if m2, ok2 := cvs.TwoThirdsMajority(); !ok2 || blockName(m2) != l.O.M {
+						fail("committovoteset", "CommitToVoteSet lost the majority")
+					}
+				}()
 			}
 		}
 		if n%997 == 1 || len(l.H) >= 7 {
